@@ -128,13 +128,6 @@ def codeOf (p2sh : Bytes → Option Bytes) (puzzle : Bytes) : Option (Bool × By
     | some u => if isWitnessV0 u then wit u else some (false, u)
   | none => if isWitnessV0 puzzle then wit puzzle else some (false, puzzle)
 
-/-- the signature hash of C04's model (`Model/Sighash.lean`) as the signer's `signature_for_hash_type_f` -/
-def modelSighash (c : Coin) (tx : Tx) (us : List (Option TxOut)) (idx : Nat) (witness : Bool) (code : Bytes) : Digest :=
-  fun ht =>
-    match (if witness then Sighash.witnessSighashF c tx us code [] idx ht else Sighash.sighashF c tx us code [] idx ht) with
-    | .ok z => some (z : Int)
-    | .error _ => none
-
 def handle : Handler := fun op args =>
   match op, args with
   | "c05_der", [r, s] => do
